@@ -119,11 +119,27 @@ def table(repo, ci, name):
     if not isinstance(node, ast.Dict):
         return "NOT_DICT"
     out = {}
-    for k, v in zip(node.keys, node.values):
+    pairs = []
+
+    def flat(d, mod, depth=0):
+        # `**NAME` of a module-level dict literal contributes its entries in place (later keys win, as in Python)
+        for k, v in zip(d.keys, d.values):
+            if k is None:
+                r_ = repo.resolve(mod, v.id) if isinstance(v, ast.Name) else None
+                if r_ is not None and r_.kind == "const" and isinstance(r_.node, ast.Dict) and depth < 4:
+                    if flat(r_.node, r_.mod, depth + 1) is False:
+                        return False
+                    continue
+                return False
+            pairs.append((k, v, mod))
+        return True
+    if flat(node, owner.mod) is False:
+        return "NOT_DICT"
+    for k, v, vmod in pairs:
         ks = k.value if isinstance(k, ast.Constant) else None
         sym = None
         if isinstance(v, (ast.Name, ast.Attribute)):
-            sym = repo.resolve_expr(owner.mod, v) if isinstance(v, ast.Attribute) else \
-                repo.resolve(owner.mod, v.id, before=owner.node.lineno if owner.mod is ci.mod else None)
+            sym = repo.resolve_expr(vmod, v) if isinstance(v, ast.Attribute) else \
+                repo.resolve(vmod, v.id, before=owner.node.lineno if (owner.mod is ci.mod and vmod is owner.mod) else None)
         out[ks if ks is not None else ast.unparse(k)] = (v, repo.class_of_sym(sym))
     return out
